@@ -81,6 +81,47 @@ fn templates() -> Vec<(&'static str, Program)> {
         print_of(var("n5")),
     ]));
     v.push(("mutual-functions-branches", Program { tops }));
+    // T4: blob values: a local defined by a blob literal that mentions a parameter, blob methods (implicit `self`),
+    // a blob literal inside a method whose value field reads the *outer* `self`, method parameters and locals
+    let mut tops = header();
+    tops.push(Top::Blob { name: "P".into(), fields: vec![("x".into(), Ty::Int)] });
+    tops.push(Top::Blob { name: "Q".into(), fields: vec![("get".into(), Ty::Fn(vec![], Box::new(Ty::Int))), ("y".into(), Ty::Int)] });
+    tops.push(Top::Blob { name: "O".into(), fields: vec![("y".into(), Ty::Int), ("mk".into(), Ty::Fn(vec![Ty::Int], Box::new(Ty::Int)))] });
+    tops.push(top_fn("n0", vec![("n1", Some(Ty::User("P".into())))], RetAnn::Ty(Ty::Int), vec![def("n2", Expr::Blob("P".into(), vec![("x".into(), add(field(var("n1"), "x"), int(1)))])), Stmt::Expr(add(field(var("n2"), "x"), field(var("n1"), "x")))]));
+    tops.push(start_fn(vec![
+        def("n3", Expr::Blob("P".into(), vec![("x".into(), int(1))])),
+        print_of(callv("n0", vec![var("n3")])),
+        def(
+            "n4",
+            Expr::Blob(
+                "O".into(),
+                vec![
+                    ("y".into(), int(7)),
+                    (
+                        "mk".into(),
+                        lambda(
+                            vec![("n5", Some(Ty::Int))],
+                            RetAnn::Ty(Ty::Int),
+                            vec![
+                                def(
+                                    "n6",
+                                    Expr::Blob(
+                                        "Q".into(),
+                                        vec![("get".into(), lambda(vec![], RetAnn::Ty(Ty::Int), vec![Stmt::Expr(add(field(var("self"), "y"), var("n5")))])), ("y".into(), add(field(var("self"), "y"), int(1)))],
+                                    ),
+                                ),
+                                Stmt::Expr(add(call(field(var("n6"), "get"), vec![]), field(var("n6"), "y"))),
+                            ],
+                        ),
+                    ),
+                ],
+            ),
+        ),
+        print_of(call(field(var("n4"), "mk"), vec![int(1)])),
+        def("n7", Expr::Blob("Q".into(), vec![("y".into(), field(var("n4"), "y")), ("get".into(), lambda(vec![], RetAnn::Ty(Ty::Int), vec![def("n8", field(var("self"), "y")), Stmt::Expr(add(var("n8"), field(var("n3"), "x")))]))])),
+        print_of(call(field(var("n7"), "get"), vec![])),
+    ]));
+    v.push(("blobs-methods-self", Program { tops }));
     v
 }
 
@@ -115,6 +156,94 @@ pub fn run(run: &mut Run) {
     let thorough = run.thorough();
     let temps = templates();
     let maxk = if thorough { 5 } else { 4 };
+    let mut base_stats = Stats::new();
+    for (tname, p) in temps.iter() {
+        // the templates themselves behave as the model binds them (reference interpreter)
+        let mut q = p.clone();
+        let chk = c01::check_semantics(&mut q);
+        base_stats.evaluations += 1;
+        match chk.verdict {
+            c01::Verdict::Ok { .. } => base_stats.outcome("template:behaves-as-the-model-binds"),
+            c01::Verdict::Skip(why) => {
+                eprintln!("MACHINERY: C09 template {} is not decided by the reference: {}", tname, why);
+                std::process::exit(2);
+            }
+            c01::Verdict::Fail { sig, detail, .. } => {
+                let mut files = serde_json::Map::new();
+                files.insert(MAIN.to_string(), json!(chk.text));
+                base_stats.outcome("template:FAIL");
+                base_stats.fail(Failure { sig: format!("capture:{}", sig), preds: vec![format!("template:{}", tname)], detail: format!("template {} (no renaming)\n{}\n{}", tname, chk.text, detail), case: json!({"engine": "c09", "files": files, "base": chk.text}), size: chk.text.len() });
+            }
+        }
+    }
+    // blob literal field orders x placements of `self`: method field before / after the value field, the value field
+    // reads `self` or not, the literal sits in a method of another blob (outer `self` exists) or directly in `start`
+    for method_first in [true, false] {
+        for value_reads_self in [true, false] {
+            for in_method in [true, false] {
+                for nested_fn_reads_self in [true, false] {
+                    let getter = lambda(vec![], RetAnn::Ty(Ty::Int), vec![Stmt::Expr(add(field(var("self"), "y"), int(100)))]);
+                    let value = if value_reads_self { add(field(var("self"), "y"), int(1)) } else { int(5) };
+                    let mut fields = vec![("get".to_string(), getter), ("y".to_string(), value)];
+                    if !method_first {
+                        fields.reverse();
+                    }
+                    let mut body = vec![def("q", Expr::Blob("Q".into(), fields))];
+                    if nested_fn_reads_self {
+                        // a plain closure (not a blob field) sees the enclosing method's self, or none
+                        body.push(cdef("h", lambda(vec![], RetAnn::Ty(Ty::Int), vec![Stmt::Expr(field(var("self"), "y"))])));
+                        body.push(print_of(callv("h", vec![])));
+                    }
+                    body.push(print_of(call(field(var("q"), "get"), vec![])));
+                    body.push(Stmt::Expr(field(var("q"), "y")));
+                    let mut tops = header();
+                    tops.push(Top::Blob { name: "Q".into(), fields: vec![("get".into(), Ty::Fn(vec![], Box::new(Ty::Int))), ("y".into(), Ty::Int)] });
+                    tops.push(Top::Blob { name: "O".into(), fields: vec![("y".into(), Ty::Int), ("mk".into(), Ty::Fn(vec![], Box::new(Ty::Int)))] });
+                    if in_method {
+                        tops.push(start_fn(vec![def("o", Expr::Blob("O".into(), vec![("y".into(), int(7)), ("mk".into(), lambda(vec![], RetAnn::Ty(Ty::Int), body))])), print_of(call(field(var("o"), "mk"), vec![]))]));
+                    } else {
+                        let n = body.len();
+                        if let Stmt::Expr(e) = body[n - 1].clone() {
+                            body[n - 1] = print_of(e);
+                        }
+                        tops.push(start_fn(body));
+                    }
+                    let mut prog = Program { tops };
+                    let res = resolve(&prog);
+                    let unbound = res.uses.iter().any(|u| u.is_none());
+                    let text = print_program(&prog).text;
+                    base_stats.evaluations += 1;
+                    base_stats.nontrivial(fnv(text.as_bytes()));
+                    let mut files = serde_json::Map::new();
+                    files.insert(MAIN.to_string(), json!(text));
+                    let verdict: Option<(String, String)> = if unbound {
+                        match compile_src(&text) {
+                            Outcome::Err { ref errs, bytes_written } if !errs.is_empty() && bytes_written == 0 => None,
+                            Outcome::Ok(_) => Some(("accepted-scope-violation".into(), "`self` is read where no blob method encloses it, yet the program is accepted".into())),
+                            other => Some(("bad-rejection".into(), other.short())),
+                        }
+                    } else {
+                        let chk = c01::check_semantics(&mut prog);
+                        match chk.verdict {
+                            c01::Verdict::Ok { .. } => None,
+                            c01::Verdict::Skip(why) => {
+                                eprintln!("MACHINERY: C09 self-placement case not decided by the reference: {}\n{}", why, text);
+                                std::process::exit(2);
+                            }
+                            c01::Verdict::Fail { sig, detail, .. } => Some((format!("capture:{}", sig), detail)),
+                        }
+                    };
+                    match verdict {
+                        None => base_stats.outcome(if unbound { "self-outside-method:rejected" } else { "self-placement:behaves-as-the-model-binds" }),
+                        Some((sig, detail)) => {
+                            base_stats.outcome("self-placement:FAIL");
+                            base_stats.fail(Failure { sig, preds: vec!["template:self-placement".into()], detail: format!("{}\n{}", text, detail), case: json!({"engine": "c09-plant", "files": files, "expect_accept": !unbound}), size: text.len() });
+                        }
+                    }
+                }
+            }
+        }
+    }
     let mut cases = Vec::new();
     for (ti, (_, p)) in temps.iter().enumerate() {
         let res = resolve(p);
@@ -203,6 +332,7 @@ pub fn run(run: &mut Run) {
         }
     });
     let mut st = Stats::merge_all(accs);
+    st.merge(base_stats);
 
     // out-of-scope uses: a read of every binder planted at every statement position
     let mut plant_cases = Vec::new();
@@ -214,11 +344,15 @@ pub fn run(run: &mut Run) {
                 plant_cases.push((ti, b, k));
             }
         }
+        // the implicit `self` of blob methods: bound exactly inside a method field of a blob literal
+        for k in 0..n {
+            plant_cases.push((ti, usize::MAX, k));
+        }
     }
     let accs = crate::pool::par_items(&plant_cases, 32, |_| Stats::new(), |acc, i, (ti, b, k)| {
         let (tname, base) = &temps[*ti];
         let res = resolve(base);
-        let name = res.binders[*b].0.clone();
+        let (name, bkind) = if *b == usize::MAX { ("self".to_string(), "ImplicitSelf".to_string()) } else { (res.binders[*b].0.clone(), format!("{:?}", res.binders[*b].1)) };
         let q = insert_at(base, *k, &Stmt::Raw(format!("print({})", name)));
         // ask the scope model: plant a uniquely named use, find its index, then give it the real name
         let marker = "zz_planted_use";
@@ -255,8 +389,8 @@ pub fn run(run: &mut Run) {
             acc.outcome(sig);
             acc.fail(Failure {
                 sig: sig.into(),
-                preds: vec![format!("template:{}", tname), format!("binder-kind:{:?}", res.binders[*b].1)],
-                detail: format!("a read of `{}` ({:?}) planted at statement position {}: the model says {}, the compiler says {}\n{}", name, res.binders[*b].1, k, if planted_bound { "bound" } else { "unbound" }, out.short(), text),
+                preds: vec![format!("template:{}", tname), format!("binder-kind:{}", bkind)],
+                detail: format!("a read of `{}` ({}) planted at statement position {}: the model says {}, the compiler says {}\n{}", name, bkind, k, if planted_bound { "bound" } else { "unbound" }, out.short(), text),
                 case: json!({"engine": "c09-plant", "files": files, "expect_accept": planted_bound}),
                 size: text.len(),
             });
